@@ -123,7 +123,7 @@ func checkSharing(r *Run, what string, ec elliptic.Curve, t int, xi []*big.Int, 
 }
 
 func runC03(r *Run, rng *rand.Rand, thorough bool) {
-	r.Rule = "whole key-generation runs (EdDSA all (n,t) with n ≤ 4 quick / ≤ 6 thorough; ECDSA with the vendored pre-parameters) under the delivery strategies of C07 and party-key patterns {1..n, random 256-bit, q+odd, leading-zero, q-i}; non-trivial = one completed run; direct assertions: identical public view, x_i·G = X_i, every (t+1)-subset interpolates to one key whose public point is the group key, every (t+2)-subset of public share points is consistent with degree ≤ t, Paillier private key matches the recorded modulus"
+	r.Rule = "whole key-generation runs (EdDSA all (n,t) with n ≤ 4 quick / ≤ 6 thorough; ECDSA with the vendored pre-parameters) under the delivery strategies of C07 and party-key patterns {1..n, random 256-bit, q+odd, leading-zero, q-i} plus key sets with two keys congruent mod q (must be refused without a crash, or else still yield distinct shares); non-trivial = one completed run; direct assertions: identical public view, x_i·G = X_i, every (t+1)-subset interpolates to one key whose public point is the group key, every (t+2)-subset of public share points is consistent with degree ≤ t, Paillier private key matches the recorded modulus"
 	maxN := 4
 	if thorough {
 		maxN = 6
@@ -164,6 +164,63 @@ func runC03(r *Run, rng *rand.Rand, thorough bool) {
 					r.Samples = append(r.Samples, fmt.Sprintf("eddsa keygen n=%d t=%d keys-pattern=%d schedule=%s events=%d pub=%s", n, t, pat, st.Name, len(ks.net.Events), ePoint(ks.keys[0].EDDSAPub)[:20]))
 				}
 			}
+		}
+	}
+	// party keys that are distinct integers but congruent modulo the group order: the run must be refused, or
+	// else whatever it outputs must still be a (t,n) sharing (it cannot be: two parties would hold one share)
+	congruent := func(q *big.Int, n int, k int) []*big.Int {
+		keys := []*big.Int{bi(7), new(big.Int).Sub(q, bi(1)), new(big.Int).Add(q, bi(7)), bi(11), new(big.Int).Add(new(big.Int).Lsh(q, 1), bi(11))}
+		if k%2 == 1 {
+			keys = []*big.Int{new(big.Int).Add(q, bi(3)), bi(5), bi(3), new(big.Int).Add(q, bi(5)), bi(9)}
+		}
+		return keys[:n]
+	}
+	distinctModQ := func(q *big.Int, ids []*big.Int) bool {
+		seen := map[string]bool{}
+		for _, id := range ids {
+			k := new(big.Int).Mod(id, q).String()
+			if seen[k] {
+				return false
+			}
+			seen[k] = true
+		}
+		return true
+	}
+	for k, c := range [][2]int{{3, 1}, {4, 2}, {5, 2}} {
+		if !thorough && k > 1 {
+			break
+		}
+		n, t := c[0], c[1]
+		q := tss.Edwards().Params().N
+		keys := congruent(q, n, k)
+		st := strategies(n, rng)[k]
+		ks, err := genEdKeysWith(rng, n, t, keys, st)
+		r.Evals++
+		r.Traces++
+		if err != nil {
+			r.Dist["eddsa-keygen/congruent-keys-refused"]++
+			r.Assert(ks == nil || len(ks.net.Panics) == 0, "eddsa-keygen/congruent-keys-no-crash", "refusal-is-an-error-not-a-crash", func() string { return fmt.Sprint(err) })
+			continue
+		}
+		r.Distinct++
+		r.Assert(distinctModQ(q, ks.keys[0].Ks), "eddsa-keygen/congruent-keys-completed", "completed-keygen-has-distinct-share-ids-mod-q", func() string {
+			return fmt.Sprintf("n=%d t=%d keys=%s: two parties hold the same share, so only n-1 distinct shares exist", n, t, eInts(keys))
+		})
+	}
+	{
+		q := tss.S256().Params().N
+		keys := congruent(q, 3, int(r.Seed))
+		ks, err := genEcKeysWith(rng, 3, 1, keys, strategies(3, rng)[0])
+		r.Evals++
+		r.Traces++
+		if err != nil {
+			r.Dist["ecdsa-keygen/congruent-keys-refused"]++
+			r.Assert(ks == nil || len(ks.net.Panics) == 0, "ecdsa-keygen/congruent-keys-no-crash", "refusal-is-an-error-not-a-crash", func() string { return fmt.Sprint(err) })
+		} else {
+			r.Distinct++
+			r.Assert(distinctModQ(q, ks.keys[0].Ks), "ecdsa-keygen/congruent-keys-completed", "completed-keygen-has-distinct-share-ids-mod-q", func() string {
+				return fmt.Sprintf("n=3 t=1 keys=%s: two parties hold the same share, so only n-1 distinct shares exist", eInts(keys))
+			})
 		}
 	}
 	// ECDSA
